@@ -124,7 +124,7 @@ theorem insert_evicts_minimally (L : Lawful P Ok) {cfg : Cfg} {c : Cache σ}
   have hpk : pk = false := sp.no_panic
   subst hpk
   obtain ⟨s1, vs, repl, es, hlv, hcase⟩ := sp.shape
-  obtain ⟨vs', hvs, hu, he, hneed, hidx, hsub⟩ := es.victims
+  obtain ⟨vs', hvs, hu, he, hneed, hidx, hsub, hnd⟩ := es.victims
   simp only [List.nil_append] at hvs
   subst hvs
   have hlen : cfg.shardOf (cfg.H key) < c.shards.length := by
